@@ -42,14 +42,12 @@ class QapDriver(drv.Driver):
     def step(self, st, nested=False):
         try:
             res = self.do(st)
-        except drv._Propagate:
-            raise
         except Exception as e:
             self.regs.append(None)
             self.raised = True
             self.err = repr(e)
             if nested:
-                raise drv._Propagate(e)
+                raise
             return
         self.regs.append(res)
 
@@ -76,10 +74,7 @@ class QapDriver(drv.Driver):
                 ret = self.opnd(body["ret"])
                 info["nres"] = len([x for x in self._flat(ret) if isinstance(x, rt.LinComb)])
                 return ret
-            try:
-                r = be.subqap(st["name"])(fn)(*[self.opnd(x) for x in st["args"]])
-            except drv._Propagate as p:
-                raise p.exc
+            r = be.subqap(st["name"])(fn)(*[self.opnd(x) for x in st["args"]])
             self.calls.append(info)
             return r
         return super().do(st)
